@@ -284,6 +284,8 @@ func (r *PhaseReconciler) teardownPhaseObject(
 		r.ownerStrategy.RemoveOwner(owner.ClientObject(), object)
 		objectPatch := map[string]interface{}{
 			"metadata": map[string]interface{}{
+				// The patch replaces the whole owner list: make sure it is the list we looked at.
+				"resourceVersion": currentObj.GetResourceVersion(),
 				"labels": map[string]interface{}{
 					constants.DynamicCacheLabel: nil,
 				},
